@@ -687,23 +687,76 @@ func runC16(c *CaseCtx) *CaseResult {
 			relaxed := k%2 == 0
 			runtime.GOMAXPROCS(procs)
 			nblobs := 120 + r.Intn(80)
-			w, _, err := c16State(stateSeed, nblobs)
+			churnSeed := r.Int63()
+			// mk builds the scenario's state from scratch (also used for the second stage of the bounded-progress oracle)
+			mk := func() (*World, error) {
+				w, _, err := c16State(stateSeed, nblobs)
+				if err != nil {
+					return nil, err
+				}
+				if k%3 == 1 {
+					// a committed base plus further churn, so that the measured commit also issues deletions
+					if err := w.Commit(false, 1); err != nil {
+						return nil, err
+					}
+					w.rng = rand.New(rand.NewSource(churnSeed))
+					for i := 0; i < 120; i++ {
+						if err := w.Step(w.roots[1+i%2], PhaseChurn, &HistCfg{DescendPct: 20, PopOnChild: true}); err != nil {
+							return nil, err
+						}
+					}
+					for i := 0; i < 25; i++ {
+						_, _ = w.roots[0].Arr.Remove(uint64(w.rng.Intn(int(w.roots[0].Arr.Count()))))
+					}
+				}
+				return w, nil
+			}
+			w, err := mk()
 			if err != nil {
 				return fail(err)
 			}
-			if k%3 == 1 {
-				// a committed base plus further churn, so that the measured commit also issues deletions
-				if err := w.Commit(false, 1); err != nil {
-					return fail(err)
-				}
-				for i := 0; i < 120; i++ {
-					if err := w.Step(w.roots[1+i%2], PhaseChurn, &HistCfg{DescendPct: 20, PopOnChild: true}); err != nil {
-						return fail(err)
+			// commitBounded: "the commit returns an error" includes that it returns. The call runs on its own goroutine
+			// and is waited for with a limit far above its normal duration (milliseconds).
+			commitBounded := func(w *World, limit time.Duration) (error, bool) {
+				w.led.inCommit = true
+				ch := make(chan error, 1)
+				go func() {
+					if relaxed {
+						ch <- w.ps.NondeterministicFastCommit(workers)
+					} else {
+						ch <- w.ps.FastCommit(workers)
 					}
+				}()
+				select {
+				case e := <-ch:
+					w.led.inCommit = false
+					return e, true
+				case <-time.After(limit):
+					return nil, false
 				}
-				for i := 0; i < 25; i++ {
-					_, _ = w.roots[0].Arr.Remove(uint64(w.rng.Intn(int(w.roots[0].Arr.Count()))))
+			}
+			// twoStage: 60 s on the prepared state; if that expires, the same scenario from scratch with 120 s; only a
+			// second expiry is a violation (the goroutines of the first attempt are abandoned)
+			twoStage := func(arm func(w *World), what string) (*World, error, *Violation) {
+				arm(w)
+				err, returned := commitBounded(w, 60*time.Second)
+				if returned {
+					return w, err, nil
 				}
+				res.Obs["commit-first-stage-timeouts"]++
+				w2, e := mk()
+				if e != nil {
+					return nil, nil, viol("harness", "%v", e)
+				}
+				arm(w2)
+				if err, returned = commitBounded(w2, 120*time.Second); !returned {
+					atomic.StoreInt64(&c16HangSeen, 1)
+					return nil, nil, viol("parallel-hang", "commit (%d workers, relaxed %v) did not return after %s (twice: 60 s, then 120 s on a fresh storage; normal duration is milliseconds)", workers, relaxed, what)
+				}
+				return w2, err, nil
+			}
+			if k%3 != 2 && atomic.LoadInt64(&c16HangSeen) != 0 {
+				continue // a hang was already reported by this process; every further probe would cost minutes
 			}
 			jh := jitterHook(r, &mu, 2)
 			switch k % 3 {
@@ -715,14 +768,12 @@ func runC16(c *CaseCtx) *CaseResult {
 					}
 					return jh(id)
 				})
-				w.led.inCommit = true
-				if relaxed {
-					err = w.ps.NondeterministicFastCommit(workers)
-				} else {
-					err = w.ps.FastCommit(workers)
-				}
-				w.led.inCommit = false
+				var hv *Violation
+				w, err, hv = twoStage(func(*World) {}, "one storable failed to encode")
 				blobEncodeHook.Store((func(uint64) error)(nil))
+				if hv != nil {
+					return fail(hv)
+				}
 				if err == nil || !errors.Is(err, ErrBlob) {
 					return fail(viol("parallel-error", "commit with a failing storable (%d workers, relaxed %v) returned %v", workers, relaxed, err))
 				}
@@ -759,23 +810,24 @@ func runC16(c *CaseCtx) *CaseResult {
 				blobEncodeHook.Store(jh)
 				pos := 1 + r.Intn(6)
 				busyAtError := int64(0)
-				w.led.ResetFaultCounters()
 				failedDelete := false
-				w.led.FailWrite = func(n int, kind byte, _ atree.SlabID) (bool, bool) {
-					if n == pos {
-						busyAtError = atomic.LoadInt64(&c16Busy)
-						failedDelete = kind == 'D'
-						return true, false
+				arm := func(w *World) {
+					w.led.ResetFaultCounters()
+					w.led.FailWrite = func(n int, kind byte, _ atree.SlabID) (bool, bool) {
+						if n == pos {
+							busyAtError = atomic.LoadInt64(&c16Busy)
+							failedDelete = kind == 'D'
+							return true, false
+						}
+						return false, false
 					}
-					return false, false
 				}
-				w.led.inCommit = true
-				if relaxed {
-					err = w.ps.NondeterministicFastCommit(workers)
-				} else {
-					err = w.ps.FastCommit(workers)
+				var hv *Violation
+				w, err, hv = twoStage(arm, fmt.Sprintf("ledger write %d failed", pos))
+				if hv != nil {
+					blobEncodeHook.Store((func(uint64) error)(nil))
+					return fail(hv)
 				}
-				w.led.inCommit = false
 				w.led.FailWrite = nil
 				blobEncodeHook.Store((func(uint64) error)(nil))
 				if err == nil {
